@@ -47,6 +47,20 @@ def toRun (i : Nat) (ks : List SKey) : Run := ks.zipIdx.map fun (k, d) => (k, i,
 
 def trueIdx (l : List Bool) : List Nat := (l.zipIdx.filter (·.1)).map (·.2)
 
+def parseCard (s : String) : Option Card :=
+  if s == "full" then some .full else if s == "optional" then some .optional
+  else if s == "multivalued" then some .multivalued else none
+
+/-- `card;keys;alive bits;min:max` -/
+def parseSegCol (s : String) : Option SegCol :=
+  match s.splitOn ";" with
+  | [c, ks, al, st] =>
+    match parseCard c, parseKeys ks, parseBits al, parseStats st with
+    | some c, some ks, some al, some [st] =>
+      if ks.length = al.length then some ⟨c, ks, al, st⟩ else none
+    | _, _, _, _ => none
+  | _ => none
+
 def handle : List String → String
   | ["sortorder", d, ks] =>
     match parseDir d, parseKeys ks with
@@ -79,6 +93,14 @@ def handle : List String → String
       let rs := runs.zipIdx.map fun (ks, i) => toRun i ks
       showBool (stackOk d st rs) ++ "/" ++ showKeys (rs.flatten.map (·.1))
     | _, _, _ => "bad-op"
+  | "decision" :: d :: segs =>
+    -- readers sorted by min value (`sort_readers_by_min_sort_field`), then the stack decision
+    match parseDir d, segs.mapM parseSegCol with
+    | some d, some cs =>
+      let sorted := sortReaders d (cs.zipIdx.map fun (c, i) => (c.stats, (c, i)))
+      (match stackDecisionG d (sorted.map (·.2.1)) with | some b => showBool b | none => "?") ++ "/" ++ showNatList (sorted.map (·.2.2)) ++ "/" ++
+        showBool ((sorted.map (·.2.1)).any fun c => hasLiveNulls c.card c.keys c.alive)
+    | _, _ => "bad-op"
   | _ => "bad-op"
 
 end TantivyModel.Driver.C17
